@@ -15,6 +15,7 @@ import (
 	"strings"
 
 	"github.com/33cn/chain33/client"
+	"github.com/33cn/chain33/queue"
 	dbm "github.com/33cn/chain33/common/db"
 	"github.com/33cn/chain33/common/log/log15"
 	_ "github.com/33cn/chain33/system"
@@ -43,6 +44,7 @@ func must(err error) {
 
 type world struct {
 	api  client.QueueProtocolAPI
+	qc   queue.Client
 	base dbm.DB
 	id   *types.Int64
 	// specification state
@@ -227,6 +229,97 @@ func (w *world) list(prefix, key []byte, count, dir int32, check bool) {
 	out.Stat("list_checked", 1)
 }
 
+// ---- requests without a transaction handle: the committed database of the node --------------
+//
+// blockchain/localdb.go answers EventLocalGet / EventLocalList with Txid == 0 and
+// EventLocalPrefixCount (whose request, types.ReqKey, carries no Txid at all) from the block
+// store's database.  They must agree with each other on the committed (base) entries at every
+// step, whatever a LocalDB handle has buffered or has open.
+
+func (w *world) baseLive(prefix []byte) []string {
+	var ks []string
+	for k, v := range w.sBase {
+		if bytes.HasPrefix([]byte(k), prefix) && len(v) > 0 {
+			ks = append(ks, k)
+		}
+	}
+	sort.Strings(ks)
+	return ks
+}
+
+func (w *world) bcount(prefix []byte) {
+	msg := w.qc.NewMessage("blockchain", types.EventLocalPrefixCount, &types.ReqKey{Key: prefix})
+	res := ""
+	var n int64 = -1
+	if err := w.qc.Send(msg, true); err != nil {
+		res = "err:" + err.Error()
+	} else if reply, err := w.qc.Wait(msg); err != nil {
+		res = "err:" + err.Error()
+	} else if v, ok := reply.GetData().(*types.Int64); ok {
+		n = v.Data
+		res = fmt.Sprint(n)
+	} else {
+		res = fmt.Sprintf("err:%T", reply.GetData())
+	}
+	out.Op("bcount "+hx(prefix), res)
+	out.Stat("bcount", 1)
+	if w.sTx != nil && len(w.sTx) > 0 {
+		out.Stat("bcount_inside_open_tx_with_writes", 1)
+	}
+	if want := len(w.baseLive(prefix)); n != int64(want) {
+		out.Pred("C08|blockchain.localPrefixCount|count-differs-from-committed-entries",
+			fmt.Sprintf("prefix=%s got=%s want=%d", hx(prefix), res, want))
+	}
+}
+
+func (w *world) bget(k []byte) {
+	r, err := w.api.LocalGet(&types.LocalDBGet{Txid: 0, Keys: [][]byte{k}})
+	res := "notfound"
+	switch {
+	case err != nil:
+		res = "err:" + err.Error()
+	case len(r.Values) != 1:
+		res = fmt.Sprintf("err:%d values", len(r.Values))
+	case len(r.Values[0]) > 0:
+		res = "= " + hx(r.Values[0])
+	}
+	out.Op("bget "+hx(k), res)
+	out.Stat("bget", 1)
+	want := "notfound"
+	if v, ok := w.sBase[string(k)]; ok && len(v) > 0 {
+		want = "= " + hx(v)
+	}
+	if res != want {
+		out.Pred("C08|blockchain.localGet(txid=0)|wrong-value", fmt.Sprintf("k=%s got=%q want=%q", hx(k), res, want))
+	}
+}
+
+func (w *world) blist(prefix []byte, dir int32) {
+	r, err := w.api.LocalList(&types.LocalDBList{Txid: 0, Prefix: prefix, Count: 0, Direction: dir | dbm.ListKeyOnly})
+	res := ""
+	if err != nil {
+		res = "err:" + err.Error()
+	} else {
+		res = showItems(r.Values)
+	}
+	out.Op(fmt.Sprintf("blist %s - 0 %d", hx(prefix), dir|dbm.ListKeyOnly), res)
+	out.Stat("blist", 1)
+	ks := w.baseLive(prefix)
+	var want [][]byte
+	if dir&dbm.ListASC != 0 {
+		for _, k := range ks {
+			want = append(want, []byte(k))
+		}
+	} else {
+		for i := len(ks) - 1; i >= 0; i-- {
+			want = append(want, []byte(ks[i]))
+		}
+	}
+	if ws := showItems(want); ws != res {
+		out.Pred("C08|blockchain.localList(txid=0)|differs-from-committed-entries", fmt.Sprintf("prefix=%s got=%s want=%s", hx(prefix), res, ws))
+	}
+}
+
 func history(w *world, r *gen.Rand, n int) {
 	pfx := []byte{0xee, byte(n >> 8), byte(n)}
 	alphabet := [][]byte{{'a', 'b'}, {0x00, 'a', 0xff}, {'a', 'b', 'c', 0xfe, 0xff}}[n%3]
@@ -257,12 +350,16 @@ func history(w *world, r *gen.Rand, n int) {
 	w.newbase()
 	for _, k := range pool {
 		if r.Chance(2, 3) {
-			w.baseSet(k, r.Bytes(r.Range(1, 2)))
+			v := r.Bytes(r.Range(1, 2))
+			if r.Chance(1, 10) {
+				v = nil // an empty value stored in the committed database
+			}
+			w.baseSet(k, v)
 		}
 	}
 	w.newLocal()
 	for i := 0; i < gen.Scale(60, 150); i++ {
-		switch r.Pick(10, 28, 22, 16, 4, 4, 2) {
+		switch r.Pick(10, 28, 22, 16, 4, 4, 2, 8) {
 		case 0:
 			w.begin()
 		case 1:
@@ -282,6 +379,12 @@ func history(w *world, r *gen.Rand, n int) {
 			w.rollback()
 		case 6:
 			w.list(prefix(), key(), 1, dbm.ListSeek, false)
+		case 7:
+			// the handle-less requests, at any point of the history (also inside an open transaction)
+			p := prefix()
+			w.bcount(p)
+			w.blist(p, int32(r.Intn(2)))
+			w.bget(key())
 		}
 	}
 	for _, k := range pool {
@@ -305,9 +408,9 @@ func main() {
 	mock := testnode.NewWithConfig(cfg, nil)
 	defer mock.Close()
 	log15.Root().SetHandler(log15.DiscardHandler())
-	w := &world{api: mock.GetAPI(), base: mock.GetBlockChain().GetDB()}
+	w := &world{api: mock.GetAPI(), qc: mock.GetClient(), base: mock.GetBlockChain().GetDB()}
 	r := gen.New(gen.Seed() + 77)
-	n := gen.Scale(40, 1500)
+	n := gen.Scale(30, 1500)
 	for i := 0; i < n; i++ {
 		history(w, r, i)
 	}
